@@ -255,11 +255,31 @@ fn spawn_worker(exe: &Path, id: &str, tier: Tier, seed: u64, shard: usize, nshar
     });
 }
 
+fn solo_trace_path(work: &Path, idx: u64) -> PathBuf {
+    work.join(format!("solo-trace-{idx}.jsonl"))
+}
+
+/// the call a killed solo process was in: last line of its input trace
+fn last_traced_call(work: &Path, idx: u64) -> Option<(String, Option<crate::cfg::Cfg>)> {
+    let text = std::fs::read_to_string(solo_trace_path(work, idx)).ok()?;
+    let last = text.lines().last()?;
+    let v: serde_json::Value = serde_json::from_str(last).ok()?;
+    if v.get("returned").is_some() {
+        // the last observed call came back: whatever hung was not the formatter
+        return None;
+    }
+    let input = v["input"].as_str()?.to_string();
+    let cfg = serde_json::from_value(v["cfg"].clone()).ok();
+    Some((input, cfg))
+}
+
 fn run_solo(exe: &Path, id: &str, tier: Tier, seed: u64, idx: u64, work: &Path, timeout: Duration) -> (Vec<Violation>, Option<String>) {
     // returns violations printed, and Some(status) if the process died / timed out
+    let _ = std::fs::remove_file(solo_trace_path(work, idx));
     let mut child = Command::new(exe)
         .args(["solo", id, tier.name(), &seed.to_string(), &idx.to_string()])
         .arg(work)
+        .env("VERIF_TRACE_INPUTS", solo_trace_path(work, idx))
         .stdin(Stdio::null())
         .stdout(Stdio::piped())
         .stderr(Stdio::null())
@@ -463,6 +483,7 @@ pub fn run(id: &str, tier: Tier) -> i32 {
 
     // confirm crashes / hangs in solo processes
     let mut slow_notes = 0;
+    let mut formatter_hangs = 0;
     // (up to 8 confirmations at a time: each is one single-threaded process)
     let mut confirmed: Vec<(Vec<Violation>, Option<String>)> = vec![];
     for chunk in crashes.chunks(8) {
@@ -483,14 +504,37 @@ pub fn run(id: &str, tier: Tier) -> i32 {
         violations.extend(vs);
         match died {
             Some(st) => {
-                let class = if st.starts_with("timeout") { "hang".to_string() } else { format!("process-abort({st})") };
-                let describe = props::describe_case(id, &ctx, c.idx);
+                let mut class = if st.starts_with("timeout") { "hang".to_string() } else { format!("process-abort({st})") };
+                let describe = props::describe_case(id, &ctx, c.idx).unwrap_or_default();
+                // the observed call the solo process was in when it was killed
+                let traced = last_traced_call(&work, c.idx);
+                if let (true, Some((input, _))) = (st.starts_with("timeout"), &traced) {
+                    if let Some(k) = prop.classify_hang(input) {
+                        class = k;
+                    }
+                }
+                if id != "C04" {
+                    // termination and aborts are C04's statement; the other in-process monitors only
+                    // note that a formatter call did not come back (when the trace shows that it was
+                    // the formatter and not the monitor's own code)
+                    if traced.is_some() {
+                        formatter_hangs += 1;
+                        println!("[{id}] note: case {}: a formatter call did not return ({st}); termination is decided by C04, this monitor skips the case", c.idx);
+                    } else {
+                        infra_errors.push(format!("case {} died outside a formatter call ({st}): harness problem", c.idx));
+                    }
+                    continue;
+                }
+                let (input, cfg) = match traced {
+                    Some((i, c)) => (i, c),
+                    None => (describe.clone(), None),
+                };
                 violations.push(Violation {
                     property: id.to_string(),
                     class,
-                    detail: format!("worker died on case {} ({}), solo confirmation: {st}", c.idx, c.status),
-                    input: describe.unwrap_or_default(),
-                    cfg: None,
+                    detail: format!("worker died on case {} ({}), solo confirmation: {st}; {describe}", c.idx, c.status),
+                    input,
+                    cfg,
                     extra: serde_json::Value::Null,
                     case_index: c.idx,
                 });
@@ -596,6 +640,7 @@ pub fn run(id: &str, tier: Tier) -> i32 {
     coverage.insert("known_finding_counts".into(), json!(kf_counts.iter().map(|(k, v)| (k.clone(), v.0)).collect::<BTreeMap<_, _>>()));
     coverage.insert("worker_deaths".into(), json!(crashes.len()));
     coverage.insert("slow_cases_confirmed_finished".into(), json!(slow_notes));
+    coverage.insert("formatter_calls_not_returning_left_to_C04".into(), json!(formatter_hangs));
     coverage.insert("inconclusive_reasons".into(), json!(inconclusive));
     coverage.insert("exhaustive".into(), json!(acc.counters.get("exhaustive_complete").copied().unwrap_or(0) > 0 && truncated == 0));
     let verdict = if n_real_total > 0 { "violated" } else if !inconclusive.is_empty() { "inconclusive" } else { "held on what was observed" };
